@@ -103,35 +103,42 @@ deriving Repr, DecidableEq, Inhabited
 
 def failRes (s : St) : Res := .exit 1 (if s.outKnown then some [] else none)
 
-/-- `argLoop` of Hw.Io.Calc with `--default-nodes`, `--local-memory`, `--local-memory-flags`, `--best-memattr` followed -/
+/-- what one argument starting with `-` does in the second option loop (non-recursive part of the loop body) -/
+inductive OptK
+  | stop (r : St → Res)                                  -- the run ends here
+  | flag (f : St → XSt → St × XSt)                       -- option without argument
+  | arg (f : St → XSt → Bytes → Option (St × XSt))       -- option with one argument (`none` = exit(EXIT_FAILURE))
+
+def optKind (a : Bytes) : OptK :=
+  if a == str "--default-nodes" then .flag (fun s xs => (s, { xs with defaultNodes := true }))
+  else if a == str "--local-memory" then .flag (fun s xs => (s, { xs with localMem := true }))
+  else if a == str "--local-memory-flags" then .arg (fun s xs v => some (s, { xs with localMem := true, localFlags := some v }))
+  else if a == str "--best-memattr" then .arg (fun s xs v => some (s, { xs with localMem := true, best := some v }))
+  else if isOpt skipOpts a then .stop (fun _ => .skip "option")
+  else if startsWith a (str "--no-smt=") then
+    match atoiDigits (a.drop 9) with
+    | some n => .flag (fun s xs => ({ s with noSmt := some n }, xs))
+    | none => .stop (fun _ => .skip "no-smt-value")
+  else if isOpt flagOpts a then .flag (fun s xs => (stepFlag s a, xs))
+  else if isOpt argOpts a then .arg (fun s xs v => (stepArgOpt s a v).map (fun s' => (s', xs)))
+  else .stop failRes
+
+/-- `argLoop` of Hw.Io.Calc with `--default-nodes`, `--local-memory`, `--local-memory-flags`, `--best-memattr` followed
+    (`argLoopX_of_argLoop` in Hw/Io/CalcAttrRefine.lean: it agrees with `argLoop` wherever that one goes through) -/
 def argLoopX (c : Ctx) : St → XSt → List Bytes → Except Res (St × XSt)
   | s, xs, [] => .ok (s, xs)
   | s, xs, a :: rest =>
     if a.head? == some 45 then
-      if a == str "--default-nodes" then argLoopX c s { xs with defaultNodes := true } rest
-      else if a == str "--local-memory" then argLoopX c s { xs with localMem := true } rest
-      else if a == str "--local-memory-flags" then
-        match rest with
-        | [] => .error (failRes s)
-        | v :: rest' => argLoopX c s { xs with localMem := true, localFlags := some v } rest'
-      else if a == str "--best-memattr" then
-        match rest with
-        | [] => .error (failRes s)
-        | v :: rest' => argLoopX c s { xs with localMem := true, best := some v } rest'
-      else if isOpt skipOpts a then .error (.skip "option")
-      else if startsWith a (str "--no-smt=") then
-        match atoiDigits (a.drop 9) with
-        | some n => argLoopX c { s with noSmt := some n } xs rest
-        | none => .error (.skip "no-smt-value")
-      else if isOpt flagOpts a then argLoopX c (stepFlag s a) xs rest
-      else if isOpt argOpts a then
+      match optKind a with
+      | .stop r => .error (r s)
+      | .flag f => argLoopX c (f s xs).1 (f s xs).2 rest
+      | .arg f =>
         match rest with
         | [] => .error (failRes s)
         | v :: rest' =>
-          match stepArgOpt s a v with
+          match f s xs v with
           | none => .error (failRes s)
-          | some s' => argLoopX c s' xs rest'
-      else .error (failRes s)
+          | some p => argLoopX c p.1 p.2 rest'
     else
       match stepLoc c s a with
       | .error e => .error e
@@ -449,40 +456,47 @@ def bestCfg (x : Extra) (xs : XSt) : Option (Option (Option (Nat × Bool × Bool
     | some none => some none
     | some (some id) => some (some (some (id, d, t)))
 
+/-- "ignoring --nodeset-output when output conversion is enabled" -/
+def adjustNodesetO (s : St) (convert : Bool) : St :=
+  if convert && s.nodesetO && !s.nodesetI then { s with nodesetO := false } else s
+
+/-- the -N / -I arguments the level parser sees: the pseudo levels are recognised before it -/
+def dropPseudo (s : St) : St :=
+  { s with numberOf := if (pseudoOf s.numberOf).isSome then none else s.numberOf,
+           intersect := if (pseudoOf s.intersect).isSome then none else s.intersect }
+
+/-- main() after the second option loop -/
+def calcTailX (c : Ctx) (x : Extra) (k : Option Nat) (s0 : St) (xs : XSt) (stdin : Bytes) : Res :=
+  let s := adjustNodesetO s0 (s0.largest || s0.numberOf.isSome || s0.intersect.isSome || s0.hier.isSome || xs.localMem)
+  match outCfg c.d (dropPseudo s) with
+  | .unmodelled => .skip "output-level"
+  | .out => failRes s
+  | .ok cfg =>
+    match bestCfg x xs with
+    | none => .skip "memattr-name"
+    | some none => failRes s
+    | some (some best) =>
+      let xcfg : XCfg := { numP := pseudoOf s.numberOf, intP := pseudoOf s.intersect, best := best }
+      let r : Res :=
+        if s.nlocs != 0 then
+          if s.noSmt.isSome && (cpusetAfterKind k s.cpuset).inf then .skip "no-smt-infinite" else
+          let (rc, out) := outputX c x k s xs cfg xcfg s.cpuset s.nodeset
+          .exit rc (if rc == 0 then out else none)
+        else
+          let banner := if s.verbose ≥ 0 then str "Waiting for locations to process on stdin...\n" else []
+          stdinLoopX c x k s xs cfg xcfg (linesOf stdin) banner
+      if s.outKnown && (s.nlocs != 0 || decide (s.verbose ≤ 0)) then r else match r with
+        | .exit rc _ => .exit rc none
+        | x => x
+
 /-- hwloc-calc's main() after `-i <input> [--if <fmt>] [--restrict <set>]` -/
 def calcMainX (d : Dump) (x : Extra) (argv : List Bytes) (stdin : Bytes) : Res :=
   let c := mkCtx d
   match topoLoop {} argv with
   | .error e => e
   | .ok (ks, argv) =>
-    let k := kindSet x ks
     match argLoopX c {} {} argv with
     | .error e => e
-    | .ok (s, xs) =>
-      let convert := s.largest || s.numberOf.isSome || s.intersect.isSome || s.hier.isSome || xs.localMem
-      let s := if convert && s.nodesetO && !s.nodesetI then { s with nodesetO := false } else s
-      let numP := pseudoOf s.numberOf
-      let intP := pseudoOf s.intersect
-      let s0 := { s with numberOf := if numP.isSome then none else s.numberOf, intersect := if intP.isSome then none else s.intersect }
-      match outCfg c.d s0 with
-      | .unmodelled => .skip "output-level"
-      | .out => failRes s
-      | .ok cfg =>
-        match bestCfg x xs with
-        | none => .skip "memattr-name"
-        | some none => failRes s
-        | some (some best) =>
-          let xcfg : XCfg := { numP := numP, intP := intP, best := best }
-          let r : Res :=
-            if s.nlocs != 0 then
-              if s.noSmt.isSome && (cpusetAfterKind k s.cpuset).inf then .skip "no-smt-infinite" else
-              let (rc, out) := outputX c x k s xs cfg xcfg s.cpuset s.nodeset
-              .exit rc (if rc == 0 then out else none)
-            else
-              let banner := if s.verbose ≥ 0 then str "Waiting for locations to process on stdin...\n" else []
-              stdinLoopX c x k s xs cfg xcfg (linesOf stdin) banner
-          if s.outKnown && (s.nlocs != 0 || decide (s.verbose ≤ 0)) then r else match r with
-            | .exit rc _ => .exit rc none
-            | x => x
+    | .ok (s, xs) => calcTailX c x (kindSet x ks) s xs stdin
 
 end Hw.Calc
